@@ -296,3 +296,31 @@ def box_inner_balls(centre, R, dims, shrink=0.85):
         loc[ax] = -dims[ax] / 2 + r + i * (dims[ax] - 2 * r) / max(n - 1, 1)
         out.append((np.asarray(centre, float) + R @ loc, r * shrink))
     return out
+
+
+def classify_balls(view_angles, vis_dist, centres, radius, ang_margin, rad_margin):
+    """Vectorised classify_ball for balls of one radius given in the VIEWER frame (camera at the
+    origin).  Returns (is_in, is_out) boolean arrays; same formulas as classify_ball."""
+    c = np.atleast_2d(np.asarray(centres, float))
+    hb, hh, vb, hv = norm_angles(view_angles)
+    d = np.linalg.norm(c, axis=1)
+    ok = d > radius * 1.05 + 1e-9
+    ds = np.where(ok, d, 1.0)
+    az = np.abs(np.arctan2(-c[:, 0], c[:, 1]))
+    alt = np.arcsin(np.clip(c[:, 2] / ds, -1, 1))
+    rho = np.arcsin(np.minimum(1.0, radius / ds))
+    narrow = np.sin(rho) < np.cos(alt) - 1e-9
+    with np.errstate(invalid="ignore", divide="ignore"):
+        daz = np.where(narrow, np.arcsin(np.clip(np.sin(rho) / np.where(narrow, np.cos(alt), 1.0), -1, 1)), math.pi)
+    out = d - radius >= vis_dist + rad_margin
+    if vb:
+        out |= (alt - rho >= hv + ang_margin) | (alt + rho <= -hv - ang_margin)
+    if hb:
+        out |= narrow & (az - daz >= hh + ang_margin) & (az + daz <= 2 * math.pi - hh - ang_margin)
+    inside = d + radius <= vis_dist - rad_margin
+    if vb:
+        inside &= (alt + rho <= hv - ang_margin) & (alt - rho >= -hv + ang_margin)
+    if hb:
+        inside &= narrow & (az + daz <= hh - ang_margin)
+    inside &= ~out
+    return inside & ok, out & ok
